@@ -262,6 +262,9 @@ def run(ctx):
                           f"{k_.name}.__init__ stores parameter `{p}` in the instance but {c.name}'s dictionary has no key for it "
                           f"(keys: {sorted(keys)}) - the value is lost in JSON", ud[1].where)
 
+    from rules import wiring as _w
+    _w.params_used(ctx, "C08.a", _w.funcs_of(m, "io.json", "io.util", "io.version", "io"), "io:options-read")
+
     # ---- C08.d class recovery ---------------------------------------------------------------------------------------
     ctx.rule("C08.d", "types are written as type(self).__name__ and class names are unique among the subclasses", 3)
     dups = {n: [c.module.short for c in cs] for n, cs in m.duplicate_classes.items()
